@@ -238,4 +238,6 @@ def targets():
         ts.append(target_variant("lstsq", test, adm, cap, ind))
     for test, adm, cap in itertools.product(("complex", "real", "imaginary"), (False, True), (False, True)):
         ts.append(target_variant("inv", test, adm, cap, True))
+    from . import forwarding
+    ts.append(forwarding.target_kk_wrappers())
     return ts
